@@ -283,6 +283,21 @@ class Engine:
             return z3.Or(V.is_none(term), body)
         return body
 
+    def count_fn(self, cname: str, negate: bool):
+        key = (cname, negate)
+        if not hasattr(self, "_count_fns"):
+            self._count_fns = {}
+        if key not in self._count_fns:
+            f = z3.RecFunction(f"count_{'not_' if negate else ''}{cname}", ArrIV, IntS, IntS)
+            els = z3.Const("els!cnt", ArrIV)
+            n = z3.Int("n!cnt")
+            p = self.is_instance(z3.Select(els, n - 1), cname)
+            if negate:
+                p = z3.Not(p)
+            z3.RecAddDefinition(f, [els, n], z3.If(n <= 0, z3.IntVal(0), f(els, n - 1) + z3.If(p, 1, 0)))
+            self._count_fns[key] = f
+        return self._count_fns[key]
+
     def field_type(self, cname: str | None, fld: str) -> Ty:
         if cname is not None:
             for c in self.repo.mro(cname):
@@ -875,6 +890,13 @@ class SpecEval:
             if f == "typed":
                 a = self._val(n.args[0])
                 return SV(a.term, eng.ty(n.args[1].value if isinstance(n.args[1], ast.Constant) else n.args[1]))
+            if f in ("count_inst", "count_not_inst"):
+                # number of j < n with (not) isinstance(lst[j], C): recursive spec function over the list's element array
+                lst_ = self._val(n.args[0])
+                nn = as_i(self._val(n.args[1]).term)
+                cn = self._cname(n.args[2])
+                fn = eng.count_fn(cn, f == "count_not_inst")
+                return SV(mk_int(fn(z3.Select(st.h("lel"), as_r(lst_.term)), nn)), T.INT)
             if f == "count_nl":
                 a = self._val(n.args[0])
                 return SV(mk_int(str_count_nl(as_s(a.term))), T.INT)
